@@ -448,7 +448,7 @@ func TestC10SyncReplies(t *testing.T) {
 		if ok {
 			s.fail("a sync round against a tampered (%s) reply reported success", kind)
 		}
-		if !c.VerifTryLock() {
+		if !clientLockFree(c) {
 			s.fail("client mutex held after the failed round")
 		}
 		after := c.VerifState()
